@@ -19,13 +19,13 @@ theorem valid_type_only (n : Nat) (t : String) (d : JsVal) :
     valid P0 (n+1) (.obj [("type", .str t)]) d = some (typeOk t d) := by
   simp only [valid, validG, cType, cConst, cEnum, cAny, cOne, cAll, cNot, cRef, cPattern, cFormat, cObj, cArr, declaredOf, prefixOf,
     lookupProp, List.find?]
-  cases d <;> simp (config := {decide := true}) [allO]
+  cases d <;> simp (config := {decide := true}) [allO, andO]
 
 set_option maxHeartbeats 1000000 in
 theorem valid_empty (n : Nat) (d : JsVal) : valid P0 (n+1) (.obj []) d = some true := by
   simp only [valid, validG, cType, cConst, cEnum, cAny, cOne, cAll, cNot, cRef, cPattern, cFormat, cObj, cArr, declaredOf, prefixOf,
     lookupProp, List.find?]
-  cases d <;> simp (config := {decide := true}) [allO]
+  cases d <;> simp (config := {decide := true}) [allO, andO]
 
 set_option maxHeartbeats 1000000 in
 theorem valid_not_empty (n : Nat) (d : JsVal) : valid P0 (n+2) (.obj [("not", .obj [])]) d = some false := by
@@ -33,7 +33,7 @@ theorem valid_not_empty (n : Nat) (d : JsVal) : valid P0 (n+2) (.obj [("not", .o
   show validG P0 (valid P0 (n+1)) (lookupProp [("not", .obj [])]) d = some false
   simp only [validG, cType, cConst, cEnum, cAny, cOne, cAll, cNot, cRef, cPattern, cFormat, cObj, cArr, declaredOf, prefixOf,
     lookupProp, List.find?]
-  cases d <;> simp (config := {decide := true}) [allO, h]
+  cases d <;> simp (config := {decide := true}) [allO, andO, h]
 
 /-- `string`, `number`, `boolean`: a JSON document is valid against the emitted schema `{type: t}` exactly when the
 validator accepts it (every document, every fuel). -/
